@@ -44,6 +44,8 @@ def check(A):
     R.asgi_body_rule(A, 'C10')
     R.driver_send_rule(A, 'C10')
     R.driver_wait_rule(A, 'C10')
+    from . import C01
+    C01.decode_cases(A, A.model.const_value(A.model.module('packet'), 'MESSAGE'), prefix='C10')
     R.driver_fifo_rule(A, 'C10')
     for cf in C.CFLAVOURS:
         C.connect_polling_rules(A, cf, 'C10')
